@@ -526,6 +526,18 @@ pub fn run() -> i32 {
                 eprintln!("SELFTEST-FAIL: c17_special_members: case {}", case);
             }
         }
+        for shape in 0..4u8 {
+            for payload in 0..2u8 {
+                for via in 0..3u8 {
+                    crate::sym::load(vec![vec![shape], vec![payload], vec![via]]);
+                    n += 1;
+                    if std::panic::catch_unwind(|| crate::node::c09_container_self_equality()).is_err() {
+                        c11_bad += 1;
+                        eprintln!("SELFTEST-FAIL: c09_container_self_equality: shape={} payload={} via={}", shape, payload, via);
+                    }
+                }
+            }
+        }
         for code in 0..=5u8 {
             crate::sym::load(vec![vec![code]]);
             n += 1;
